@@ -28,8 +28,8 @@ pub fn prop() -> Prop {
         id: "C05",
         level: "fault_enumeration",
         runs: |t| match t {
-            Tier::Quick => 700,
-            Tier::Thorough => 9000,
+            Tier::Quick => 2100,
+            Tier::Thorough => 26000,
         },
         generate,
         exec,
